@@ -66,6 +66,46 @@ assert abs(e1 - e0) < 1e-6 * max(1.0, abs(e0)), "energy changed under on-the-fly
 """ % case
 
 
+def repro_dmrg(case, used_seed, used_rseed):
+    src = open(os.path.join(common.VERIF, "harness", "impl", "c17_ofs.py")).read()
+    fn = src[src.index("def to_original_order"):src.index("class SwapCounter")]
+    d = dict(case)
+    d.update(seed=used_seed, rseed=used_rseed, sweeps=case.get("sweeps", 7))
+    return make_integrals_src() + "import itertools\n" + fn + """
+from renormalizer.model import h_qc, Model, Op
+from renormalizer.mps import Mps, Mpo
+from renormalizer.mps.gs import optimize_mps
+from renormalizer.utils import CompressConfig, CompressCriteria, OFS
+nsp, nelec = %(nsp)d, %(nelec)r; n = 2 * nsp
+h, eri = make_integrals(nsp, %(seed)d, %(kind)r)
+basis, terms = h_qc.qc_model(*h_qc.int_to_h(h, eri))
+if %(spelled)r == "sigma":
+    ren = {"+": "sigma_+", "-": "sigma_-", "Z": "sigma_z"}
+    terms = [Op(" ".join(ren[s] for s in t.split_symbol), t.dofs, t.factor, t.qn_list) for t in terms]
+model = Model(basis, terms); mpo = Mpo(model); H = np.asarray(mpo.todense())        # original orbital order
+occ = np.array([[(i >> (n - 1 - k)) & 1 for k in range(n)] for i in range(2 ** n)])
+na, nb = occ[:, 0::2].sum(1), occ[:, 1::2].sum(1)
+msk = (na == nelec[0]) & (nb == nelec[1]); exact = np.linalg.eigvalsh(H[np.ix_(msk, msk)])[0]
+np.random.seed(%(rseed)d)
+mps = Mps.random(model, nelec, 16, percent=1.0)
+cc = lambda: CompressConfig(CompressCriteria.fixed, max_bonddim=%(M)d, ofs={o.value: o for o in OFS}[%(ofs)r], ofs_swap_jw=%(swap_jw)r)
+perc = [0.4, 0.2, 0.1] + [0] * 20
+mps.optimize_config.procedure = [[cc(), perc[k]] for k in range(%(sweeps)d)]     # CompressConfig entries: OFS really on
+mps.optimize_config.method = "2site"
+energies, res = optimize_mps(mps.copy(), mpo)
+order = [b.dof for b in res.model.basis]
+psi = np.asarray(res.todense()).ravel(); psi = psi / np.linalg.norm(psi)
+v = to_original_order(psi, order, n, %(swap_jw)r)       # the returned state read in the site order of ITS OWN model
+ray, a, b = v @ H @ v, v @ (na * v), v @ (nb * v)
+print("reported", min(energies), "exact", exact, "order", order, "<H>", ray, "<Na>,<Nb>", a, b)
+assert abs(a - nelec[0]) < 1e-6 and abs(b - nelec[1]) < 1e-6, "returned state has the wrong electron numbers in its own site order"
+if not %(swap_jw)r:
+    assert abs(res.expectation(Mpo(res.model)) - ray) < 1e-6 * max(1, abs(H).max()), "res.expectation(Mpo(res.model)) != <H> of the returned state"
+if abs(min(energies) - exact) < 1e-6 * max(1, abs(H).max()):
+    assert abs(ray - min(energies)) < 1e-6 * max(1, abs(H).max()), "returned state is not the optimised state"
+""" % d
+
+
 def repro_swapseq(case, raised):
     return make_integrals_src() + """
 from renormalizer.model import h_qc, Model, Op
@@ -636,16 +676,22 @@ def run(ctx):
     for ofs in ["OFS-S", "OFS-D/S", "OFS-D", "OFS-Debug"]:
         for spelled, sj in (("qc", False), ("sigma", True)) + ((("qc", True),) if thorough else ()):
             ofs_cases.append({"mode": "dmrg", "nsp": 2, "seed": rng.randrange(10 ** 6), "kind": "dense", "spelled": spelled, "swap_jw": sj,
-                              "ofs": ofs, "M": 4, "nelec": [1, 1], "rseed": rng.randrange(1000)})
-            if thorough:
-                ofs_cases.append({"mode": "dmrg", "nsp": 3, "seed": rng.randrange(10 ** 6), "kind": "dense", "spelled": spelled, "swap_jw": sj,
-                                  "ofs": ofs, "M": 8, "nelec": rng.choice([[1, 2], [2, 1], [1, 1]]), "rseed": rng.randrange(1000)})
-    of_payloads = [{"cases": ch} for ch in chunks(ofs_cases, 3)]
+                              "ofs": ofs, "M": 4, "nelec": [1, 1], "rseed": rng.randrange(1000), "retries": 6})
+    # three spatial orbitals, exact bond dimension, several sweeps with OFS really switched on (CompressConfig entries in
+    # `procedure`): exchanges are accepted late in the last sweep, after the snapshot that optimize_mps returns
+    for k in range(10 if thorough else 3):
+        for spelled, sj in (("qc", False), ("qc", True)) + ((("sigma", True),) if thorough else ()):
+            ofs_cases.append({"mode": "dmrg", "nsp": 3, "seed": rng.randrange(10 ** 6), "kind": rng.choice(["float", "dense"]), "spelled": spelled,
+                              "swap_jw": sj, "ofs": "OFS-S" if k % 3 else "OFS-D/S", "M": 8, "nelec": rng.choice([[2, 1], [1, 2], [1, 1]]),
+                              "rseed": rng.randrange(1000), "sweeps": rng.choice([4, 5]), "retries": 8})
+    of_payloads = [{"cases": ch} for ch in chunks([c for c in ofs_cases if c["nsp"] < 3], 3)] + [{"cases": [c]} for c in ofs_cases if c["nsp"] >= 3]
     of_res = ctx.impl_par("c17_ofs.py", of_payloads, timeout=1500)
     ofs_bad = []           # inconsistencies not explained by the symbol-name defect
     names_bad = []         # energy / state inconsistency for qc symbols with ofs_swap_jw=True
     ofs_assert = []
     n_swapped_runs = 0
+    n_swaps_total = 0
+    n_ofs_skips = 0
     for (rc, r, raw), pl in zip(of_res, of_payloads):
         r = unfile(r)
         if r is None:
@@ -667,29 +713,40 @@ def run(ctx):
                 else:
                     ofs_bad.append({"what": "AssertionError on the OFS path", "case": case, "raised": c["raised"]})
                 continue
+            n_ofs_skips += c.get("skips", 0)
             if c.get("order") != sorted(c.get("order", [])):
                 n_swapped_runs += 1
                 nontriv += 1
+            n_swaps_total += c.get("nswaps", 0)
             sc = c["scale"]
             bad = None
             if c["spec"] > TOL:
                 bad = "spectrum of the co-swapped operator changed"
             elif case["mode"] == "tdvp":
-                if abs(c["e1"] - c["e0"]) > TOL_DYN * sc:
+                if c["order"] != c["order_mpo"]:
+                    bad = "site order recorded in the evolved state differs from the co-swapped operator's"
+                elif abs(c["e1"] - c["e0"]) > TOL_DYN * sc:
                     bad = "energy not conserved by TDVP-PS2 with on-the-fly swapping (exact bond dimension)"
-                elif c["absdev"] > TOL_DYN:
-                    bad = "state differs from exp(-iHt) psi0 beyond signs and the site permutation"
-                elif not case["swap_jw"] and c["overlap"] < 1 - TOL_DYN:
-                    bad = "state differs from the site-permuted exp(-iHt) psi0"
+                elif c["overlap"] < 1 - TOL_DYN or abs(c["rayleigh"] - c["e0"]) > TOL_DYN * sc:
+                    bad = "returned state, read in the site order of its own model (fermionic reordering sign for the JW exchange), is not exp(-iHt) psi0"
             else:
+                nel = case["nelec"]
+                conv = abs(c["reported"] - c["exact"]) <= TOL_DYN * sc
                 if c["reported"] < c["exact"] - TOL_DYN * sc:
                     bad = "reported energy below the exact sector ground state (operator changed)"
-                elif not case["swap_jw"] and abs(c["rebuilt"] - c["reported"]) > TOL_DYN * sc and abs(c["reported"] - c["exact"]) <= TOL_DYN * sc:
-                    bad = "returned state is not the optimised state of Mpo(result.model)"
-                elif abs(c["reported"] - c["exact"]) > TOL_DYN * sc:
+                elif abs(c["n_alpha"] - nel[0]) > TOL_DYN or abs(c["n_beta"] - nel[1]) > TOL_DYN:
+                    bad = "returned state, read in the site order of its own model, has <N_alpha>, <N_beta> = %.6f, %.6f instead of %s" % (c["n_alpha"], c["n_beta"], nel)
+                elif not case["swap_jw"] and abs(c["rebuilt"] - c["rayleigh"]) > TOL_DYN * sc:
+                    bad = "res.expectation(Mpo(res.model)) differs from the Rayleigh quotient of the returned state mapped back by res.model.basis"
+                elif conv and abs(c["rayleigh"] - c["reported"]) > TOL_DYN * sc:
+                    bad = "returned state, read in the site order of its own model, has <H> = %.8f but the reported (= exact sector) energy is %.8f" % (c["rayleigh"], c["reported"])
+                elif conv and not case["swap_jw"] and abs(c["rebuilt"] - c["reported"]) > TOL_DYN * sc:
+                    bad = "res.expectation(Mpo(res.model)) differs from the reported energy"
+                elif not conv:
                     ctx.notes.append("DMRG with %s not converged to the exact sector energy (%.6f vs %.6f); not a violation" % (case["ofs"], c["reported"], c["exact"]))
             if bad:
-                rec = {"what": bad, "case": case, "observed": {k: v for k, v in c.items() if k != "case"}}
+                rec = {"what": bad, "case": case, "observed": {k: v for k, v in c.items() if k != "case"},
+                       "used": [c.get("used_seed", case["seed"]), c.get("used_rseed", case["rseed"])]}
                 if case["spelled"] == "qc" and case["swap_jw"]:
                     names_bad.append(rec)
                 else:
@@ -772,15 +829,23 @@ Hs = sum(L.term_dense(t, 2 * %(nsp)d) for t in L.flat_terms(terms)); assert abs(
                       found=first is not None and first["case"]["mode"] == "tdvp",
                       repro=repro_tdvp(first["case"]) if first is not None and first["case"]["mode"] == "tdvp" else None)
     if ofs_bad:
-        first = ofs_bad[0]
-        is_t = "case" in first and first["case"].get("mode") == "tdvp" and "error" not in first
-        ctx.violation("ofs-consistency", "dense oracle: energy / state / spectrum changed by on-the-fly swapping",
-                      {"failures": ofs_bad[:6]}, found=is_t, repro=repro_tdvp(first["case"]) if is_t else None)
-
+        withcase = [x for x in ofs_bad if "case" in x and "error" not in x and "used" in x]
+        first = withcase[0] if withcase else None
+        rp = None
+        if first is not None:
+            rp = repro_tdvp(dict(first["case"], seed=first["used"][0], rseed=first["used"][1])) if first["case"]["mode"] == "tdvp" \
+                else repro_dmrg(first["case"], first["used"][0], first["used"][1])
+        ctx.violation("ofs-consistency", "dense oracle: energy / state / electron numbers / spectrum changed by on-the-fly swapping "
+                      "(returned state read in the site order of its own model vs reported energy, exact sector ground state and Mpo(result.model))",
+                      {"failures": ofs_bad[:6], "n_failures": len(ofs_bad)}, found=first is not None, repro=rp)
+    if n_swapped_runs == 0 or n_swaps_total == 0:
+        ctx.violation("ofs-oracle-vacuous", "dense oracle: no OFS run ended in a permuted site order (%d exchanges counted) -- on-the-fly swapping "
+                      "was not exercised, the OFS clauses of C17 are unchecked in this run" % n_swaps_total,
+                      {"runs": len(ofs_cases)}, found=False)
     ctx.notes.append("term classes matched: %d of %d model classes (n=%s); rule pairs compared: %d; swap sequences: %d (%d hit the swap_site assertion); "
                      "few-term operator cases: %d (%d exchange steps compared with the kron reference); OFS runs: %d (%d ended in a permuted order); qc symbols + swap_jw=True operator steps: %d plain / %d fermionic"
                      % (len(seen_classes), total_classes, sorted(model_terms), n_rule_pairs, len(swap_cases), len(swap_assert), len(ft_cases), n_ft_steps, len(ofs_cases),
-                        n_swapped_runs, qc_true_plain, qc_true_fermi))
+                        n_swapped_runs, n_swaps_total, n_ofs_skips, qc_true_plain, qc_true_fermi))
     return {"evaluations": ev, "distinct_nontrivial": nontriv,
             "rule": "distinct (n, index tuple) term classes on which qc_model's term (per-site words, sign, quantum numbers) equals the Coq model's "
                     "+ word pairs on which the swap rule changes an operator and agrees with the model + swap sequences with >= 1 executed step + few-term operator plans whose every step matched the kron reference "
@@ -789,4 +854,4 @@ Hs = sum(L.term_dense(t, 2 * %(nsp)d) for t in L.flat_terms(terms)); assert abs(
             "input_distribution": dist,
             "term_classes_total": total_classes, "term_classes_matched": len(seen_classes),
             "rule_pairs": n_rule_pairs, "fewterm_cases": len(ft_cases), "fewterm_steps": n_ft_steps, "swap_sequences": len(swap_cases), "swap_assertions": len(swap_assert),
-            "ofs_runs": len(ofs_cases), "qc_covered_by_rule": covered, "qc_counterexample": witness}
+            "ofs_runs": len(ofs_cases), "ofs_runs_permuted": n_swapped_runs, "ofs_exchanges": n_swaps_total, "ofs_retries": n_ofs_skips, "qc_covered_by_rule": covered, "qc_counterexample": witness}
